@@ -185,6 +185,41 @@ func TestVerifC18(t *testing.T) {
 			rep.Case(fmt.Sprintf("log|%v|%d|%v|%v", useProto, l.Type, len(l.Extensions) > 0, l.AppendedAt.IsZero()))
 		}
 		s.Close()
+		if !useProto {
+			// the legacy JSON store opened in protobuf mode: every entry is converted and must
+			// still decode to the same entry (command payloads: to the same replicated message)
+			robust.MessageOffset = 4648398125000000000
+			before := map[uint64]raft.Log{}
+			js, err := NewLevelDBStore(d, false, false)
+			if err == nil {
+				for k := 1; k <= entries; k++ {
+					var l raft.Log
+					if js.GetLog(uint64(k), &l) == nil {
+						before[uint64(k)] = l
+					}
+				}
+				js.Close()
+				ps, err := NewLevelDBStore(d, false, true)
+				if err != nil {
+					rep.Violation("C18", "conversion-error", err.Error(), nil)
+				} else {
+					for idx, want := range before {
+						var got raft.Log
+						if err := ps.GetLog(idx, &got); err != nil {
+							rep.Violation("C18", "conversion-lost-entry", fmt.Sprintf("index %d: %v", idx, err), nil)
+							continue
+						}
+						w := c09Log{Index: want.Index, Term: want.Term, Type: uint8(want.Type), Data: want.Data, Extensions: want.Extensions, AppendedAt: want.AppendedAt}
+						if dd := compareLog(w, &got, true); dd != "" {
+							rep.Violation("C18", "conversion-changes-entry", fmt.Sprintf("index %d (type %d) after the JSON->protobuf conversion: %s", idx, want.Type, dd), map[string]interface{}{"index": idx})
+						}
+						rep.Case(fmt.Sprintf("converted|%d|%v", want.Type, len(want.Extensions) > 0))
+					}
+					ps.Close()
+				}
+			}
+			robust.MessageOffset = 0
+		}
 		os.RemoveAll(d)
 	}
 }
